@@ -226,6 +226,9 @@ class Lib:
         np["ones"] = LibFunc("np.ones", lambda i, shape, dtype=None, **k: A.binop("+", self.np_zeros(i, shape, dtype), 1))
         np["ones_like"] = LibFunc("np.ones_like", lambda i, a, dtype=None: A.binop("+", self.np_zeros_like(i, a, dtype), 1))
         np["isclose"] = LibFunc("np.isclose", lambda i, a, b, **k: i.binop("==", a, b))   # A1: floats are reals, tolerance collapses to equality
+        from . import relops
+        np["argsort"] = LibFunc("np.argsort", lambda i, a, **k: relops.argsort(_arr(a, i)))
+        np["argpartition"] = LibFunc("np.argpartition", lambda i, a, kth, **k: relops.argpartition(_arr(a, i), kth))
         np["array2string"] = LibFunc("np.array2string", self.np_array2string)
         np["set_printoptions"] = LibFunc("np.set_printoptions", lambda i, **k: cur().trace.append(("np.set_printoptions", dict(k), cur().where)))
         self.mods["re"] = {"sub": LibFunc("re.sub", self.re_sub)}
@@ -569,7 +572,8 @@ class Lib:
                 return BoundLib("masked." + name, obj)
             if name == "shape":
                 return (obj.count(),) + tuple(obj.rest)
-            raise EngineError(f"attribute {name} of masked selection")
+            from .relops import masked_to_arr
+            return self.arr_attr(interp, masked_to_arr(obj), name)
         if sv.is_scalar(obj):
             if name == "real":
                 return _re(obj)
@@ -737,6 +741,9 @@ class Lib:
             return sv.cmp("==", A.reduce_sum(nb, axis), 0)
         if meth == "item":
             return a.get(tuple(0 for _ in a.shape))
+        if meth == "argsort":
+            from .relops import argsort
+            return argsort(a)
         raise EngineError(f"ndarray.{meth}")
 
     def reshape(self, interp, a, newshape):
